@@ -253,21 +253,51 @@ def index_loop_sites(fn):
                 d0 = fn.single_def(a0["p"]["l"]) if a0.get("k") in ("copy", "move") and not a0["p"]["pj"] else None
                 if d0 and d0["kind"] == "assign" and d0["stmt"]["rv"]["k"] == "ref" and d0["stmt"]["rv"]["p"]["l"] == il["coll"]["l"] and [e.get("k") for e in d0["stmt"]["rv"]["p"]["pj"]] == [e.get("k") for e in il["coll"]["pj"]] and [e.get("i") for e in d0["stmt"]["rv"]["p"]["pj"]] == [e.get("i") for e in il["coll"]["pj"]]:
                     res.add(bb)
-            if t["k"] == "assert" and "BoundsCheck" in t["msg"]:
-                # array/slice indexing v[i] compiled to a bounds check
-                res_ok = False
-                for o in (t.get("ops") or []):
-                    if is_counter(o):
-                        res_ok = True
-                if res_ok:
+            if t["k"] == "assert" and "BoundsCheck" in t["msg"] and t["cond"].get("k") in ("copy", "move"):
+                # array/slice indexing v[i] compiled to a bounds check `i < len`
+                dc = fn.single_def(t["cond"]["p"]["l"])
+                if dc and dc["kind"] == "assign" and dc["stmt"]["rv"]["k"] == "binop" and dc["stmt"]["rv"]["op"] == "Lt" and is_counter(dc["stmt"]["rv"]["a"]):
                     res.add(bb)
+    return res
+
+
+def bool_index_sites(fn):
+    """Bounds checks of `TABLE[usize::from(flag)]` on a table of at least two entries: the index is 0 or 1."""
+    res = set()
+    for bb in fn.reachable():
+        t = fn.term(bb)
+        if t["k"] == "assert" and "BoundsCheck" in t["msg"] and t["cond"].get("k") in ("copy", "move"):
+            dc = fn.single_def(t["cond"]["p"]["l"])
+            if not (dc and dc["kind"] == "assign" and dc["stmt"]["rv"]["k"] == "binop" and dc["stmt"]["rv"]["op"] == "Lt"):
+                continue
+            a, b = dc["stmt"]["rv"]["a"], dc["stmt"]["rv"]["b"]
+            big = b.get("k") == "const" and re.match(r"^(\d+)_usize$", str(b.get("s", ""))) and int(re.match(r"^(\d+)", str(b["s"])).group(1)) >= 2
+            if not big or a.get("k") not in ("copy", "move"):
+                continue
+            l = a["p"]["l"]
+            n_ = 0
+            while n_ < 4:
+                n_ += 1
+                d = fn.single_def(l)
+                if d is None:
+                    break
+                if d["kind"] == "call":
+                    if re.search(r"<usize as std::convert::From<bool>>::from$", M.call_name(d["term"])):
+                        res.add(bb)
+                    break
+                if d["kind"] == "assign" and d["stmt"]["rv"]["k"] == "use" and d["stmt"]["rv"]["op"].get("k") in ("copy", "move") and not d["stmt"]["rv"]["op"]["p"]["pj"]:
+                    l = d["stmt"]["rv"]["op"]["p"]["l"]
+                    continue
+                if d["kind"] == "assign" and d["stmt"]["rv"]["k"] == "cast" and d["stmt"]["rv"]["from"] == "bool":
+                    res.add(bb)
+                break
     return res
 
 
 def sites(fn):
     out = []
     guarded = guarded_subtractions(fn.facts, fn) if hasattr(fn, "facts") and fn.facts is not None else set()
-    guarded = set(guarded) | index_loop_sites(fn)
+    guarded = set(guarded) | index_loop_sites(fn) | bool_index_sites(fn)
     if hasattr(fn, "facts") and fn.facts is not None:
         guarded |= guarded_indexings(fn.facts, fn)
     for bb in sorted(fn.reachable()):
